@@ -146,14 +146,16 @@ theorem allSome_cons {α : Type} (x : Option α) (xs : List (Option α)) (l : Li
     | some as => simp [hx] at h; exact ⟨a, as, rfl, rfl, h.symm⟩
 
 /-- where the specification's row (probe by the policy's own number) is determined, it is the row
-    with the probe psutil makes (by position) -/
-theorem policyRowAt_imp (online : List (Nat × FileState)) (i : Nat) (p : Policy) (info : Option Rat) (fr : Freq)
-    (h : policyRowAt online i p info = some fr) : policyRow p info (offline online i) = some fr := by
+    with the probe psutil makes — by position `i` (as found) or by the policy's number -/
+theorem policyRowAt_imp (online : List (Nat × FileState)) (i j : Nat) (p : Policy) (info : Option Rat) (fr : Freq)
+    (hj : j = i ∨ j = p.n)
+    (h : policyRowAt online i p info = some fr) : policyRow p info (offline online j) = some fr := by
   unfold policyRowAt at h
   cases hc : curOf p info with
   | none =>
     by_cases hi : i = p.n
-    · rw [hi]; simpa [hc, hi] using h
+    · have : j = p.n := by rcases hj with h' | h'; rw [h', hi]; exact h'
+      rw [this]; simpa [hc, hi] using h
     · simp [hc, hi] at h
   | some q =>
     simp only [hc, Option.isNone_some, Bool.false_and, Bool.false_eq_true, if_false] at h
@@ -175,7 +177,9 @@ theorem policyLoop_refines (c : Cfg) (hg : c.Good) (online : List (Nat × FileSt
     simp only [List.length_cons, List.range'_succ, List.zip_cons_cons, List.map_cons] at h
     obtain ⟨a, as, h1, h2, h3⟩ := allSome_cons _ _ _ h
     unfold policyLoop
-    rw [policyFreq_refines c hg online i _ p a (policyRowAt_imp online i p _ a h1), ih (i + 1) as h2, h3]
+    rw [policyFreq_refines c hg online _ _ p a
+      (policyRowAt_imp online i (if c.probeByPosition then i else p.n) p _ a (by split <;> simp) h1),
+      ih (i + 1) as h2, h3]
 
 /-- the platform list, given what `_cpu_get_cpuinfo_freq()` returned -/
 theorem cpuFreqPlat_refines (c : Cfg) (hg : c.Good) (variant : Bool) (blocks : List CpuBlock) (t : FreqTree)
